@@ -98,6 +98,11 @@ type Exec struct {
 	mutexes map[uintptr]*mutexState
 	chans   map[uintptr]*chanState
 	vars    map[uintptr]*varState
+	// pinned keeps every object whose address keys shim state (mutexes, channels, stamped
+	// variables, atomics ...) reachable until the execution ends: otherwise the garbage collector
+	// may free it mid-execution and hand the same address to a new object, which would then
+	// inherit stale state - a timing-dependent (GC-dependent) source of nondeterminism.
+	pinned []any
 	Races   []string
 	raceSet map[string]bool
 
@@ -506,6 +511,7 @@ func (e *Exec) mutex(m *Mutex) *mutexState {
 	if s == nil {
 		s = &mutexState{}
 		e.mutexes[k] = s
+		e.pinned = append(e.pinned, m)
 	}
 	return s
 }
@@ -555,14 +561,122 @@ func (m *Mutex) TryLock() bool {
 	return true
 }
 
-// RWMutex is modelled as an exclusive lock (sound for race detection and deadlock, coarser for
-// interleavings of readers).
-type RWMutex struct{ m Mutex }
+// RWMutex replaces sync.RWMutex: any number of readers or one writer. Writer preference (a waiting
+// writer blocking new readers) is not modelled: the set of reachable lock states is the same, since
+// a reader that slips in "after" a waiting writer could equally have arrived just before it.
+// Happens-before: Unlock -> every later RLock/Lock; RUnlock -> every later Lock (readers do not
+// synchronise with one another).
+type RWMutex struct{ _ byte }
 
-func (m *RWMutex) Lock()    { m.m.Lock() }
-func (m *RWMutex) Unlock()  { m.m.Unlock() }
-func (m *RWMutex) RLock()   { m.m.Lock() }
-func (m *RWMutex) RUnlock() { m.m.Unlock() }
+type rwState struct {
+	writer  bool
+	readers int
+	wvc     VC // released by writers
+	rvc     VC // released by readers
+}
+
+var rwmutexes = map[uintptr]*rwState{}
+
+func (e *Exec) rwOf(m *RWMutex) *rwState {
+	k := reflect.ValueOf(m).Pointer()
+	s := rwmutexes[k]
+	if s == nil {
+		s = &rwState{}
+		rwmutexes[k] = s
+		e.pinned = append(e.pinned, m)
+	}
+	return s
+}
+
+func (m *RWMutex) Lock() {
+	e := cur
+	if e.aborted.Load() {
+		return
+	}
+	s := e.rwOf(m)
+	e.point("rwmutex.Lock", func() bool { return !s.writer && s.readers == 0 }, -1)
+	s.writer = true
+	e.cur.vc = e.cur.vc.join(s.wvc).join(s.rvc)
+	e.note(e.cur, "wlock")
+}
+
+func (m *RWMutex) Unlock() {
+	e := cur
+	if e.aborted.Load() {
+		return
+	}
+	s := e.rwOf(m)
+	if !s.writer {
+		panic("sync: Unlock of unlocked RWMutex")
+	}
+	e.point("rwmutex.Unlock", nil, -1)
+	s.wvc = s.wvc.join(e.cur.vc)
+	e.cur.vc[e.cur.id]++
+	s.writer = false
+	e.note(e.cur, "wunlock")
+}
+
+func (m *RWMutex) RLock() {
+	e := cur
+	if e.aborted.Load() {
+		return
+	}
+	s := e.rwOf(m)
+	e.point("rwmutex.RLock", func() bool { return !s.writer }, -1)
+	s.readers++
+	e.cur.vc = e.cur.vc.join(s.wvc)
+	e.note(e.cur, "rlock")
+}
+
+func (m *RWMutex) RUnlock() {
+	e := cur
+	if e.aborted.Load() {
+		return
+	}
+	s := e.rwOf(m)
+	if s.readers == 0 {
+		panic("sync: RUnlock of unlocked RWMutex")
+	}
+	e.point("rwmutex.RUnlock", nil, -1)
+	s.rvc = s.rvc.join(e.cur.vc)
+	e.cur.vc[e.cur.id]++
+	s.readers--
+	e.note(e.cur, "runlock")
+}
+
+func (m *RWMutex) TryLock() bool {
+	e := cur
+	if e.aborted.Load() {
+		return false
+	}
+	s := e.rwOf(m)
+	e.point("rwmutex.TryLock", nil, -1)
+	if s.writer || s.readers > 0 {
+		e.note(e.cur, "trywlock-fail")
+		return false
+	}
+	s.writer = true
+	e.cur.vc = e.cur.vc.join(s.wvc).join(s.rvc)
+	e.note(e.cur, "trywlock-ok")
+	return true
+}
+
+func (m *RWMutex) TryRLock() bool {
+	e := cur
+	if e.aborted.Load() {
+		return false
+	}
+	s := e.rwOf(m)
+	e.point("rwmutex.TryRLock", nil, -1)
+	if s.writer {
+		e.note(e.cur, "tryrlock-fail")
+		return false
+	}
+	s.readers++
+	e.cur.vc = e.cur.vc.join(s.wvc)
+	e.note(e.cur, "tryrlock-ok")
+	return true
+}
 
 // WaitGroup replaces sync.WaitGroup.
 type WaitGroup struct{ _ byte }
@@ -580,6 +694,7 @@ func (e *Exec) wgOf(w *WaitGroup) *wgState {
 	if s == nil {
 		s = &wgState{}
 		wgs[k] = s
+		e.pinned = append(e.pinned, w)
 	}
 	return s
 }
@@ -662,6 +777,7 @@ func (e *Exec) chanOf(ch any) *chanState {
 	if s == nil {
 		s = &chanState{cap: v.Cap()}
 		e.chans[k] = s
+		e.pinned = append(e.pinned, ch)
 	}
 	return s
 }
@@ -939,11 +1055,13 @@ type varState struct {
 	rID    map[int]string
 }
 
-func (e *Exec) varOf(p uintptr) *varState {
+func (e *Exec) varOf(ptr any) *varState {
+	p := reflect.ValueOf(ptr).Pointer()
 	s := e.vars[p]
 	if s == nil {
 		s = &varState{wTid: -1, reads: map[int]int32{}, rID: map[int]string{}}
 		e.vars[p] = s
+		e.pinned = append(e.pinned, ptr)
 	}
 	return s
 }
@@ -966,7 +1084,7 @@ func R[T any](p *T, id string) *T {
 		return p
 	}
 	me := e.cur
-	s := e.varOf(reflect.ValueOf(p).Pointer())
+	s := e.varOf(p)
 	if s.wTid >= 0 && s.wTid != me.id && s.wClock > me.vc.get(s.wTid) {
 		e.race("write/read", s.wID, id)
 	}
@@ -982,7 +1100,7 @@ func W[T any](p *T, id string) *T {
 		return p
 	}
 	me := e.cur
-	s := e.varOf(reflect.ValueOf(p).Pointer())
+	s := e.varOf(p)
 	if s.wTid >= 0 && s.wTid != me.id && s.wClock > me.vc.get(s.wTid) {
 		e.race("write/write", s.wID, id)
 	}
@@ -1015,6 +1133,7 @@ func Run(prefix []int, sigs []uint32, opt Options, body func()) *Exec {
 		e.horizon = 2000
 	}
 	wgs = map[uintptr]*wgState{}
+	rwmutexes = map[uintptr]*rwState{}
 	resetSyncx()
 	resetAtoms()
 	e.Net = newNetwork(e)
